@@ -239,6 +239,19 @@ def pauli_matrix(s, e=0):
     return pauli_apply(s, np.eye(2 ** len(s), dtype=np.complex128), e).T
 
 
+def float_bits(x):
+    import struct
+    return struct.unpack('<Q', struct.pack('<d', float(x)))[0]
+
+
+def bits_to_float(b):
+    import struct
+    return struct.unpack('<d', struct.pack('<Q', int(b)))[0]
+
+
+NONDYADIC_W = [0.1, 0.3, 1 / 3, 0.7, 2.3]
+
+
 def decompose_pauli(M, tol=1e-9):
     """M (2^n x 2^n) -> 'e:SYMS' if M = i^e σ_SYMS entrywise (tolerance tol), else None"""
     N = M.shape[0]
@@ -570,6 +583,17 @@ def impl_op(op, codes):
     if k == 'asym':
         n, d, p, q = (int(x) for x in t[2:6])
         return guarded(lambda: ';'.join(sparse_to_str(n, e, gate_name) for e in numqi.qec.make_asymmetric_error_set(n, d, weight_z=p / q)))
+    if k == 'asymf':
+        n, d, b = int(t[2]), int(t[3]), int(t[4])
+        w = bits_to_float(b)
+        return guarded(lambda: ';'.join(sparse_to_str(n, e, gate_name) for e in numqi.qec.make_asymmetric_error_set(n, d, weight_z=w)))
+    if k == 'fceil':
+        a, b = int(t[2]), int(t[3])
+        w = bits_to_float(b)
+        from fractions import Fraction
+        q = a / w   # the implementation's expression (distance-nxy)/weight_z: int / binary64
+        fq = Fraction(q)
+        return f'{int(np.ceil(q))} {math.ceil(Fraction(a) / Fraction(w))} {fq.numerator}/{fq.denominator}'
     if k == 'run':
         n, idx = int(t[2]), int(t[3])
         gates = parse_gates(t[4])
@@ -642,6 +666,15 @@ def gen_ops(ctx, codes):
             for p, q in ASYM_W:
                 ops.append(f'C19 asym {n} {d} {p} {q}')
     ops.append('C19 asym 3 2 0 1')
+    # binary64 weights through the float model of int(np.ceil((d-nxy)/weight_z)): non-dyadic ones and two dyadic ones
+    for w in NONDYADIC_W + [1.5, 0.5]:
+        for n in range(1, (5 if quick else 6)):
+            for d in range(1, 5):
+                ops.append(f'C19 asymf {n} {d} {float_bits(w)}')
+        for a in range(1, 13):
+            ops.append(f'C19 fceil {a} {float_bits(w)}')
+    for _ in range(40 if quick else 400):
+        ops.append(f'C19 fceil {ctx.rng.randint(1, 60)} {float_bits(ctx.rng.uniform(0.01, 7.0))}')
     rng = ctx.rng
     nr = 60 if quick else 400
     for _ in range(nr):
@@ -672,6 +705,21 @@ def correspondence(ctx):
     model = common.run_model(ops, pid='C19')
     trivial = lambda op, out: out not in ('', 'bad-op', 'none') and len(out) > 1
     common.compare(ctx, ops, impl, model, nontrivial=trivial)
+    # binary64 ceil vs exact rational ceil: record where they differ (Lean: float_ceil_bounds says differ by at most one, downwards)
+    ndiff = 0
+    for op, out in zip(ops, model):
+        t = op.split(' ')
+        if t[1] == 'fceil' and out.count(' ') == 2:
+            f, e, _ = out.split(' ')
+            ctx.count('fceil-float==exact' if f == e else 'fceil-float==exact-1' if int(f) == int(e) - 1 else 'fceil-OTHER')
+            if f != e:
+                ndiff += 1
+                ctx.sample({'op': op, 'weight_z': repr(bits_to_float(int(t[3]))), 'float_ceil': f, 'exact_ceil': e}, limit=12)
+            if int(f) not in (int(e), int(e) - 1):
+                ctx.disagree(op + ' bounds', out, 'float ceil must be exact ceil or one less')
+    ctx.extra['float_ceil'] = dict(weights=[repr(w) for w in NONDYADIC_W], differing_inputs=ndiff,
+                                   note='inputs where int(np.ceil(a/weight_z)) in binary64 is one less than the exact ceiling of a/weight_z (weight_z at its exact value)')
+    klloss_tie(ctx)
     # the model's weight-enumerator integers regrouped by string weight must add up to the totals of the Lean theorem
     # `weight_enumerator_sum_rules` (sums over the Pauli basis X^x Z^z): 2^n K 4^h and 2^n K^2 4^h
     for op, out in zip(ops, model):
@@ -691,8 +739,44 @@ def correspondence(ctx):
     ctx.extra['exhaustive_domain'] = ('every code word of every shipped code; every error below the distance of the 7 codes up to 10 qubits '
                                       '(11 qubits in the thorough tier); make_error_list for all n<=6, d<=4; make_asymmetric_error_set for all n<=5 (6 thorough), d<=4, '
                                       f'weight_z in {["%d/%d" % w for w in ASYM_W]}')
-    ctx.assumptions.append('weight_z values in the tie are dyadic rationals: for other values the float expression ceil((d-nxy)/weight_z) of the '
-                           'implementation can differ from the exact bound by rounding (not modelled)')
+    ctx.assumptions.append('quotients (distance-nxy)/weight_z below 2^53 and weight_z a positive normal binary64 number (hypotheses of float_ceil_bounds)')
+
+
+def klloss_tie(ctx):
+    """knill_laflamme_loss (numpy and torch paths, 'L2' and 'L1') on Gaussian-integer inner products against the exact
+    rational model: L2 as a rational, L1 as the sum of square roots of the model's rational radicands.
+    Tolerance 1e-9 relative: the inputs are small integers, the mean is one division, so float error is ~1e-15 relative."""
+    import numqi, torch
+    from fractions import Fraction
+    rng = np.random.default_rng(ctx.np_seed + 17)
+    cases = []
+    for _ in range(30 if ctx.quick() else 300):
+        E, K = int(rng.integers(1, 5)), int(rng.integers(1, 5))
+        style = rng.integers(0, 4)
+        M = rng.integers(-4, 5, size=(E, K, K)) + 1j * rng.integers(-4, 5, size=(E, K, K))
+        if style == 0:      # exactly KL on the entries the loss uses
+            M = np.stack([np.tril(M[e], -1) + (e + 1j) * np.eye(K) for e in range(E)])
+        elif style == 1:    # only the lower triangle is non-zero off the diagonal (ignored by the loss)
+            M = np.stack([np.tril(M[e], -1) + np.diag(np.full(K, 2 - 1j)) for e in range(E)])
+        cases.append(M)
+    ops = [f'C19 klloss {M.shape[0]} {M.shape[1]} ' + ';'.join(f'{int(z.real)},{int(z.imag)}' for z in M.reshape(-1)) for M in cases]
+    out = common.run_model(ops, pid='C19')
+    for op, M, line in zip(ops, cases, out):
+        ctx.count('klloss')
+        try:
+            l2s, rads = line.split(' ')
+            l2 = Fraction(l2s)
+            l1 = sum(math.sqrt(Fraction(r)) for r in rads.split(',')) if rads else 0.0
+        except Exception:
+            ctx.disagree(op, line, 'unparsable'); continue
+        got = dict(L2_np=float(numqi.qec.knill_laflamme_loss(M, 'L2')), L1_np=float(numqi.qec.knill_laflamme_loss(M, 'L1')),
+                   L2_torch=float(numqi.qec.knill_laflamme_loss(torch.tensor(M), 'L2')), L1_torch=float(numqi.qec.knill_laflamme_loss(torch.tensor(M), 'L1')))
+        want = dict(L2_np=float(l2), L1_np=l1, L2_torch=float(l2), L1_torch=l1)
+        bad = {k: (got[k], want[k]) for k in got if abs(got[k] - want[k]) > 1e-9 * max(1.0, abs(want[k]))}
+        if bad:
+            ctx.disagree(op, line, repr(bad))
+        else:
+            ctx.agree(op, op if l2 != 0 else None)
 
 
 # ---------------------------------------------------------------------------
@@ -860,6 +944,33 @@ def probe_error_sets(ctx, nmax, dmax):
                     ctx.probe_ok(('asym', n, d, p, q))
 
 
+def probe_asym_float(ctx):
+    """non-dyadic weight_z: with the weight at its exact binary64 value, nothing with nx+ny+w*nz >= d may be present and
+    everything with nx+ny+w*nz <= d - 1e-9 must be present (strings within 1e-9 of the bound may go either way: the
+    implementation decides them by a rounded quotient; Lean: asymmetric_set_float_spec)"""
+    import numqi
+    from fractions import Fraction
+    for w in NONDYADIC_W:
+        wq = Fraction(w)
+        for n in range(1, 5):
+            for d in range(1, 5):
+                try:
+                    got = [sparse_to_str(n, e, gate_name) for e in numqi.qec.make_asymmetric_error_set(n, d, weight_z=w)]
+                except Exception as e:
+                    ctx.fail('make_asymmetric_error_set', f'make_asymmetric_error_set({n},{d},{w!r}) raised {type(e).__name__}', dict(op='make_asymmetric_error_set', n=n, d=d, weight_z=repr(w))); continue
+                allw = {s: (s.count('X') + s.count('Y')) + wq * s.count('Z') for s in (''.join(t) for t in itertools.product('IXYZ', repeat=n)) if s != 'I' * n}
+                must = sorted(s for s, v in allw.items() if v <= d - Fraction(1, 10 ** 9))
+                may = set(s for s, v in allw.items() if v < d)
+                missing = sorted(set(must) - set(got))[:3]
+                extra = sorted(set(got) - may)[:3]
+                dup = len(got) != len(set(got))
+                if missing or extra or dup:
+                    ctx.fail('make_asymmetric_error_set', f'make_asymmetric_error_set({n},{d},weight_z={w!r}): missing {missing}, beyond the bound {extra}, duplicates {dup}',
+                             dict(op='make_asymmetric_error_set', n=n, d=d, weight_z=repr(w), missing=missing, extra=extra, duplicates=dup))
+                else:
+                    ctx.probe_ok(('asymf', n, d, w))
+
+
 def probe_weight_enumerator(ctx, c):
     import numqi
     name, n, K, d = c['name'], c['n'], c['K'], c['d']
@@ -894,6 +1005,7 @@ def probe(ctx):
         if c['n'] <= 6 or (not quick and c['n'] <= 8 and c['K'] <= 8):
             probe_weight_enumerator(ctx, c)
     probe_error_sets(ctx, 6 if quick else 7, 4 if quick else 5)
+    probe_asym_float(ctx)
 
 
 def search(ctx, hints):
